@@ -160,6 +160,24 @@ def worker_main(argv: list[str]) -> int:
     )
     emit({"_enumerated": len(cases)})
     signal.signal(signal.SIGALRM, _alarm_handler)
+    # hard watchdog: SIGALRM is only honoured between bytecodes; a case stuck inside
+    # native code (a non-terminating XLA while loop, an ORT kernel) is ended by
+    # terminating the worker - the parent marks the case inconclusive and respawns.
+    import threading
+
+    hard: dict[str, Any] = {"deadline": None, "key": None}
+
+    def _watch() -> None:
+        while True:
+            time.sleep(2.0)
+            dl = hard["deadline"]
+            if dl is not None and time.time() > dl:
+                try:
+                    emit({"key": hard["key"], "status": "inconclusive", "reason": "hard_timeout(native code did not return)"})
+                finally:
+                    os._exit(17)
+
+    threading.Thread(target=_watch, daemon=True).start()
     for i in order:
         case = cases[i]
         key = case["key"]
@@ -175,7 +193,10 @@ def worker_main(argv: list[str]) -> int:
             continue
         emit({"_start": key})
         t0 = time.time()
-        signal.alarm(int(case.get("timeout", case_timeout)))
+        tmo = int(case.get("timeout", case_timeout))
+        signal.alarm(tmo)
+        hard["key"] = key
+        hard["deadline"] = time.time() + tmo + max(30, tmo // 2)
         try:
             rec = mod.run_case(case, tier, seed)
             signal.alarm(0)
@@ -194,6 +215,7 @@ def worker_main(argv: list[str]) -> int:
             }
         finally:
             signal.alarm(0)
+            hard["deadline"] = None
         rec["key"] = key
         if rec.get("violations"):
             rec["case"] = case
@@ -303,7 +325,7 @@ def run_workers(
             records, fatals, started, enumerated, _ = _read_records(all_outs)
             unfinished = sorted(started - set(records))
             died = any((p.returncode not in (0,)) for p in procs)
-            if fatals or killed_by_deadline or not died or generation >= 3:
+            if fatals or killed_by_deadline or not died or generation >= 8:
                 break
             # a worker died (segfault, OOM): mark its open case, respawn for the rest
             crashed.extend(unfinished)
